@@ -103,7 +103,11 @@ def check(run):
         ok = calls and {"self.retry", "self.leid"} <= stores
         run.ob("C15.R3", "%s:evented-branch-%d" % (pb.fq, i), ok, run.site(pb, b),
                "" if ok else "evented branch %d: parse() called=%s, propagates %s (needs retry and leid)" % (i, calls, sorted(stores)))
-    run.floor("C15.R3", 3)
+    if len(blocks) == 2:
+        a, b = (unparse(x) for x in sorted(blocks, key=lambda n: n.lineno))
+        run.ob("C15.R3", "%s:evented-branches-agree" % pb.fq, a == b, run.site(pb, blocks[1]),
+               "" if a == b else "the chunked and the close-delimited evented branches of parseBody differ:\n%s\n-- vs --\n%s" % (a, b))
+    run.floor("C15.R3", 4)
 
 
 MUTANTS = [
